@@ -239,7 +239,7 @@ Definition calc_duration (l : list aev) : Q :=
 
 Definition set_delay (e : aev) (d : Q) : aev := mkAev (a_len e) d (a_tag e).
 
-(* align.py:65-75 *)
+(* align.py:65-75; calc_duration(objects[i]) of ONE event is max(0, delay + length) *)
 Fixpoint align_go (dur : Q) (l : list (nat * aev)) : res (list aev) :=
   match l with
   | [] => OK []
@@ -247,9 +247,9 @@ Fixpoint align_go (dur : Q) (l : list (nat * aev)) : res (list aev) :=
     let nd :=
       if Nat.eqb sp align_left then OK 0                                            (* :66-67 *)
       else if Nat.eqb sp align_center
-           then OK ((dur - ev_duration e + a_delay e) / 2)                          (* :68-69 *)
+           then OK ((dur - calc_duration [e] + a_delay e) / 2)                          (* :68-69 *)
       else if Nat.eqb sp align_right then
-             let d := dur - ev_duration e + a_delay e in                            (* :71 *)
+             let d := dur - calc_duration [e] + a_delay e in                            (* :71 *)
              if Qltb d 0 then Err ENegDelay else OK d                               (* :72-75 *)
       else OK (a_delay e) in
     match nd with
